@@ -221,6 +221,8 @@ fn trailer_menu() -> Vec<Trailers> {
         t(&[("grpc-status", "0"), ("x-r", "a"), ("x-r", "b")]),
         t(&[("grpc-status", "0"), ("x-b-bin", "AP8+")]),
         t(&[("grpc-status", "13"), ("grpc-message", "m"), ("a", "1"), ("b", ""), ("c", "3")]),
+        // an opaque value (octets >= 0x80 that are not UTF-8): legal in a header value
+        vec![("grpc-status".to_string(), b"0".to_vec()), ("x-o".to_string(), vec![b'c', b'a', b'f', 0xe9, b' ', 0xff, 0x80])],
     ]
 }
 
@@ -450,7 +452,7 @@ pub fn property(tier: Tier) -> Property {
     let resp = Section::new(
         "responses",
         Config { max_bound: tier.q(2, 3), ..Default::default() },
-        "cases: inner gRPC response = 0..2 message frames (payloads 0/1/3/5 bytes, flags 0/1) + a trailer map from a menu (status only, message with ': ' and spaces, repeated key, binary value, 5 entries) x Accept in {grpc-web, +proto, -text, -text+proto, absent, */*} x request content-type {binary, text} x inner response content-type {application/grpc, +proto, +json}, also with an inner body that announces its exact length (size_hint; 0 for a response that is trailers only); environment: the inner body is delivered under every chunking (all compositions for bodies <= 14/18 bytes, else <= bound cuts/Pending/empty-frame deviations) plus drip; oracle: independent grpc-web(-text) decoder recovers the identical message frames followed by exactly one 0x80 frame whose header block equals the trailers as a multimap; content-type family follows Accept; no HTTP trailers leak. Non-trivial = inner body delivered in more than one chunk.",
+        "cases: inner gRPC response = 0..2 message frames (payloads 0/1/3/5 bytes, flags 0/1) + a trailer map from a menu (status only, message with ': ' and spaces, repeated key, binary value, 5 entries, a value with non-UTF-8 octets) x Accept in {grpc-web, +proto, -text, -text+proto, absent, */*} x request content-type {binary, text} x inner response content-type {application/grpc, +proto, +json}, also with an inner body that announces its exact length (size_hint; 0 for a response that is trailers only); environment: the inner body is delivered under every chunking (all compositions for bodies <= 14/18 bytes, else <= bound cuts/Pending/empty-frame deviations) plus drip; oracle: independent grpc-web(-text) decoder recovers the identical message frames followed by exactly one 0x80 frame whose header block equals the trailers as a multimap; content-type family follows Accept; no HTTP trailers leak. Non-trivial = inner body delivered in more than one chunk.",
         resp_cases(tier),
         |c: &RespCase| format!("frames={:?} trailers={:?} accept={:?} free={} drip={} req_text={} sized={} inner_ct={}", c.frames, show(&c.trailers), c.accept, c.free, c.drip, c.req_text, c.sized, c.inner_ct),
         resp_body,
